@@ -102,10 +102,15 @@ class SymbolFinder:
 			シンボル
 		"""
 		domain_name = ModuleDSN.local_joined(node.domain_name, prop_name)
+		scopes = self.__make_scopes(db, node)
+		# XXX クラスのプロパティーはクラス自身の名前空間にのみ存在する。外側のスコープにある同名のクラスのプロパティーと混同しない
+		if prop_name and isinstance(node, defs.ClassDef):
+			scopes = scopes[:1]
+
 		if not isinstance(node, defs.Type):
-			return self.__find_raw(db, self.__make_scopes(db, node), domain_name)
+			return self.__find_raw(db, scopes, domain_name)
 		else:
-			return self.__find_raw_for_type(db, self.__make_scopes(db, node), domain_name)
+			return self.__find_raw_for_type(db, scopes, domain_name)
 
 	def __make_scopes(self, db: SymbolDB, node: defs.Symbolic) -> list[ModuleDSN]:
 		"""探索スコープのリストを生成
